@@ -320,15 +320,24 @@ class SNum:
             c = self.t[((), ())]
             return SNum({k: v * c for k, v in o2.t.items()})
         d: Dict[Key, complex] = {}
+        need_reduce = False
         for (m1, a1), c1 in self.t.items():
             for (m2, a2), c2 in o2.t.items():
-                k = (mono_mul(m1, m2), ang_add(a1, a2))
+                mm = mono_mul(m1, m2)
+                if mm:
+                    for n, p in mm:
+                        if p >= 2 and n.startswith('_sqrt'):
+                            need_reduce = True
+                k = (mm, ang_add(a1, a2))
                 r = d.get(k, 0j) + c1 * c2
                 if r == 0:
                     d.pop(k, None)
                 else:
                     d[k] = r
-        return SNum(d)
+        out = SNum(d)
+        if need_reduce:
+            out = _reduce_sqrt_powers(out)
+        return out
 
     __rmul__ = __mul__
 
@@ -602,6 +611,47 @@ class SNum:
             parts.append(s)
         more = '' if len(self.t) <= 6 else f' +...({len(self.t)} terms)'
         return 'S(' + ' + '.join(parts) + more + ')'
+
+
+def _reduce_sqrt_powers(x: 'SNum') -> 'SNum':
+    """normal form: (sqrt-atom)^2 is replaced by the atom's argument (r*r == arg by definition)"""
+    c = _ctx._CUR[0]
+    if c is None:
+        return x
+    args = getattr(c, 'sqrt_args', None)
+    if not args:
+        return x
+    for _ in range(8):
+        hit = None
+        for (mono, ang) in x.t:
+            for n, p in mono:
+                if p >= 2 and n in args:
+                    hit = n
+                    break
+            if hit:
+                break
+        if hit is None:
+            return x
+        arg = args[hit]
+        out = SNum({})
+        for (mono, ang), co in x.t.items():
+            pw = dict(mono).get(hit, 0)
+            if pw < 2:
+                r = out.t.get((mono, ang), 0j) + co
+                if r == 0:
+                    out.t.pop((mono, ang), None)
+                else:
+                    out.t[(mono, ang)] = r
+                continue
+            rest = tuple((n, p) for n, p in mono if n != hit)
+            if pw % 2:
+                rest = tuple(sorted(rest + ((hit, 1),)))
+            term = SNum({(rest, ang): co})
+            for _k in range(pw // 2):
+                term = term * arg
+            out = out + term
+        x = out
+    return x
 
 
 def _unit_phase(q: Fraction, unit: str) -> complex:
